@@ -318,8 +318,7 @@ var nameAlphabet = []string{"a", "b", "c", "d", "e"}
 // genConc: the concurrent class of the reply-consistency properties - C29's workload with caches enabled and
 // long-lived, judged after quiescence by what a fresh client is told (c29AfterQuiescence).
 func genConc(r *simrt.Rand, tier, kind string) *SeqScn {
-	cs := genC29(r, tier).(*C29Scn)
-	cs.Cached = true
+	cs := genC29Mode(r, tier, true).(*C29Scn)
 	return &SeqScn{Kind: kind, Conc: cs, Sched: cs.Sched}
 }
 
